@@ -10,6 +10,8 @@ for pid in ids:
         na.append({"property_id": pid, "reason": "not built yet (machinery for this property is still under construction; see DESIGN.md section 6)"})
         continue
     d = json.load(open(p))
+    if not d.get("ready"):
+        na.append({"property_id": pid, "reason": "check under construction, not yet claimed (see DESIGN.md section 6)"}); continue
     if d.get("not_applicable"):
         na.append({"property_id": pid, "reason": d["not_applicable"]}); continue
     checks.append({
